@@ -215,6 +215,10 @@ class AstToDjangoQVisitor(visitor.NodeVisitor):
 
     def visit_Compare(self, node: ast.Compare) -> lookups.Lookup:
         ":meta private:"
+        if isinstance(node.left, ast.Null) and not isinstance(node.right, ast.Null):
+            # `null eq x` means the same as `x eq null`:
+            node = ast.Compare(node.comparator, node.right, node.left)
+
         lhs = self.visit(node.left)
 
         # Special case: comparison to NULL => isnull=True/False
